@@ -127,6 +127,8 @@ DateStep(e) ==
          /\ DateParse(e.in, e.rule)
          /\ Note(ParseDemands(e, dRet'))
          /\ UNCHANGED ctx
+    [] e.op = "date.utext" ->
+         DateUnmarshalText(e.in) /\ Note(UTextDemands(e, dRet', dRecv', Dt(e.recv))) /\ UNCHANGED ctx
     [] e.op = "date.unbin" ->
          \* the model receiver is set to the logged pre-state, then the action runs
          /\ LET r == BinDecodeRef(e.in) IN
@@ -156,7 +158,7 @@ DateStep(e) ==
     [] e.op = "date.fcontains" ->
          DateFilterContains(e.i, Dt(e.p)) /\ Note(FContainsDemands(e, dRet')) /\ UNCHANGED ctx
 
-IsDateOp(e) == e.op \in {"date.set", "date.rt", "date.parse", "date.unbin", "date.bin", "date.cmp",
+IsDateOp(e) == e.op \in {"date.utext", "date.set", "date.rt", "date.parse", "date.unbin", "date.bin", "date.cmp",
                           "date.add", "date.adddur", "date.time", "date.fromtime", "date.freset",
                           "date.vars", "date.fbuild", "date.fcontains"}
 
